@@ -165,6 +165,11 @@ ClassRouting(raw) ==
   ELSE LET a == s[1] - 48 b == s[2] - 48 IN
        IF (a = 0 /\ b >= 1) \/ (a = 1 /\ b <= 2) \/ (a = 2 /\ b >= 1) \/ (a = 3 /\ b <= 2) THEN R("must", 0) ELSE Reject
 
+(* [0-9]{5} without anchors: a pattern input accepts a text that matches FROM ITS FIRST CHARACTER (anything may follow) *)
+ClassPrefix5(raw) ==
+  LET s == Strip(raw) IN
+  IF Len(s) >= 5 /\ \A k \in 1..5 : IsADigit(s[k]) THEN R("must", 0) ELSE Reject
+
 (* ^[0-9A-Za-z\-]{1,17}$ *)
 ClassAccount(raw) ==
   LET s == Strip(raw) IN
